@@ -148,6 +148,18 @@ impl Asm {
     }
 }
 
+/// the interpreter's call stack as indices (whatever integer type the field has)
+pub fn cs_get(ictx: &InterpreterContext) -> Vec<usize> {
+    ictx.call_stack.iter().map(|x| *x as usize).collect()
+}
+
+pub fn cs_set(ictx: &mut InterpreterContext, v: &[usize]) {
+    ictx.call_stack.clear();
+    for x in v {
+        ictx.call_stack.push(*x as _);
+    }
+}
+
 #[derive(Clone, Debug, PartialEq, Eq)]
 pub enum Exec {
     Ok(St),
